@@ -141,6 +141,22 @@ macro_rules! arch_spec {
                 for (e, $($f),*) in self.iter() {
                     out.push((abits((*e).into_any()), vec![$($f.obs()),*]));
                 }
+                // the same items through the positioning adaptors (nth / skip / step_by / last / count)
+                let n = out.len();
+                if self.iter().count() != n {
+                    crate::rt::violate("C06", "iterator-adaptor", format!("{}::iter().count() != number of items yielded by next()", stringify!($A)));
+                }
+                if n > 0 {
+                    let k = n / 2;
+                    let via_nth = self.iter().nth(k).map(|(e, $($f),*)| (abits((*e).into_any()), vec![$($f.obs()),*]));
+                    let via_skip: Vec<Row> = self.iter().skip(k).map(|(e, $($f),*)| (abits((*e).into_any()), vec![$($f.obs()),*])).collect();
+                    let via_step: Vec<Row> = self.iter().step_by(2).map(|(e, $($f),*)| (abits((*e).into_any()), vec![$($f.obs()),*])).collect();
+                    let via_last = self.iter().last().map(|(e, $($f),*)| (abits((*e).into_any()), vec![$($f.obs()),*]));
+                    let want_step: Vec<Row> = out.iter().step_by(2).cloned().collect();
+                    if via_nth.as_ref() != out.get(k) || via_skip[..] != out[k..] || via_step != want_step || via_last.as_ref() != out.last() {
+                        crate::rt::violate("C06", "iterator-adaptor", format!("{}::iter(): nth/skip/step_by/last disagree with plain iteration", stringify!($A)));
+                    }
+                }
                 out
             }
             fn scan_iter_mut(&mut self, write: Option<(usize, usize, u64)>) -> Vec<Row> {
@@ -155,6 +171,20 @@ macro_rules! arch_spec {
                     }
                     out.push((abits((*e).into_any()), vec![$($f.obs()),*]));
                     n += 1;
+                }
+                let total = out.len();
+                if self.iter_mut().count() != total {
+                    crate::rt::violate("C06", "iterator-adaptor", format!("{}::iter_mut().count() != number of items yielded by next()", stringify!($A)));
+                }
+                if total > 0 {
+                    let k = total / 2;
+                    let via_nth = self.iter_mut().nth(k).map(|(e, $($f),*)| (abits((*e).into_any()), vec![$($f.obs()),*]));
+                    let via_skip: Vec<Row> = self.iter_mut().skip(k).map(|(e, $($f),*)| (abits((*e).into_any()), vec![$($f.obs()),*])).collect();
+                    let via_step: Vec<Row> = self.iter_mut().step_by(2).map(|(e, $($f),*)| (abits((*e).into_any()), vec![$($f.obs()),*])).collect();
+                    let want_step: Vec<Row> = out.iter().step_by(2).cloned().collect();
+                    if via_nth.as_ref() != out.get(k) || via_skip[..] != out[k..] || via_step != want_step {
+                        crate::rt::violate("C06", "iterator-adaptor", format!("{}::iter_mut(): nth/skip/step_by disagree with plain iteration", stringify!($A)));
+                    }
                 }
                 out
             }
@@ -499,11 +529,15 @@ macro_rules! world_spec {
             $($($extra)*)?
             #[cfg(feature = "events")]
             fn w_created(&self) -> Result<Vec<Bits>, String> {
-                collect_events(self.iter_created())
+                let v = collect_events(self.iter_created())?;
+                check_event_adaptors(&v, || self.iter_created())?;
+                Ok(v)
             }
             #[cfg(feature = "events")]
             fn w_destroyed(&self) -> Result<Vec<Bits>, String> {
-                collect_events(self.iter_destroyed())
+                let v = collect_events(self.iter_destroyed())?;
+                check_event_adaptors(&v, || self.iter_destroyed())?;
+                Ok(v)
             }
             #[cfg(feature = "events")]
             fn w_clear_events(&mut self) {
@@ -544,6 +578,35 @@ pub fn collect_events<'a>(mut it: impl Iterator<Item = &'a gecs::prelude::Entity
     Ok(out)
 }
 
+/// The world-level event iterator positioned through nth / skip / step_by / count / last must
+/// yield the same items as plain `next()` calls, for every split point.
+#[cfg(feature = "events")]
+pub fn check_event_adaptors<'a, I: Iterator<Item = &'a gecs::prelude::EntityAny>>(plain: &[Bits], mk: impl Fn() -> I) -> Result<(), String> {
+    let n = plain.len();
+    if mk().count() != n {
+        return Err(format!("count() = {} but next() yielded {} items", mk().count(), n));
+    }
+    if mk().last().map(|e| abits(*e)) != plain.last().copied() {
+        return Err("last() disagrees with plain iteration".to_string());
+    }
+    for k in 0..=n.min(12) {
+        let via_skip: Vec<Bits> = mk().skip(k).map(|e| abits(*e)).collect();
+        if via_skip[..] != plain[k.min(n)..] {
+            return Err(format!("skip({}) yielded {:x?}, plain iteration from there is {:x?}", k, via_skip, &plain[k.min(n)..]));
+        }
+        let via_nth = mk().nth(k).map(|e| abits(*e));
+        if via_nth != plain.get(k).copied() {
+            return Err(format!("nth({}) = {:x?}, plain iteration has {:x?}", k, via_nth, plain.get(k)));
+        }
+    }
+    let via_step: Vec<Bits> = mk().step_by(2).map(|e| abits(*e)).collect();
+    let want: Vec<Bits> = plain.iter().step_by(2).copied().collect();
+    if via_step != want {
+        return Err("step_by(2) disagrees with plain iteration".to_string());
+    }
+    Ok(())
+}
+
 // =============================================================================================
 // WA: the mixed main world. Six archetypes, non-contiguous explicit ids, overlapping columns.
 pub mod wa {
@@ -559,7 +622,7 @@ pub mod wa {
         ecs_archetype!(ArchR, CompB, CompS, CompH);
         ecs_archetype!(ArchT, CompA, CompH, CompL, CompZ, CompU);
         #[archetype_id(200)]
-        ecs_archetype!(ArchV, CompL, CompY);
+        ecs_archetype!(ArchV, CompL, CompY, CompC);
         #[archetype_id(255)]
         ecs_archetype!(ArchX, CompZ);
     }
@@ -568,7 +631,7 @@ pub mod wa {
     arch_spec!(WA, ArchQ, [(CompA, comp_a), (CompB, comp_b)]);
     arch_spec!(WA, ArchR, [(CompB, comp_b), (CompS, comp_s), (CompH, comp_h)]);
     arch_spec!(WA, ArchT, [(CompA, comp_a), (CompH, comp_h), (CompL, comp_l), (CompZ, comp_z), (CompU, comp_u)]);
-    arch_spec!(WA, ArchV, [(CompL, comp_l), (CompY, comp_y)]);
+    arch_spec!(WA, ArchV, [(CompL, comp_l), (CompY, comp_y), (CompC, comp_c)]);
     arch_spec!(WA, ArchX, [(CompZ, comp_z)]);
 
     site!(S0, WA, w,
